@@ -32,12 +32,12 @@ Atoms(f) == CASE f[1] \in {"top", "bot"} -> {}
 RangeS(sq) == { sq[i] : i \in DOMAIN sq }
 BaseOf(blocks) == UNION { RangeS(blocks[k]) : k \in DOMAIN blocks }
 
-RECURSIVE SumLen(_, _)
-SumLen(blocks, k) == IF k > Len(blocks) THEN 0 ELSE Len(blocks[k]) + SumLen(blocks, k + 1)
+RECURSIVE SumLenB(_, _)
+SumLenB(blocks, k) == IF k > Len(blocks) THEN 0 ELSE Len(blocks[k]) + SumLenB(blocks, k + 1)
 
 ValidDecomp(asts, n, blocks, obs) ==
   /\ BaseOf(blocks) \cup RangeS(obs) = 1..n
-  /\ SumLen(blocks, 1) + Len(obs) = n                        \* hence pairwise disjoint, nothing listed twice
+  /\ SumLenB(blocks, 1) + Len(obs) = n                        \* hence pairwise disjoint, nothing listed twice
   /\ \A k \in DOMAIN blocks : Len(blocks[k]) >= 1 /\
         \A i \in DOMAIN blocks[k] : Atoms(asts[blocks[k][i]]) \subseteq RangeS(blocks[k])
   /\ \A j \in DOMAIN obs : Atoms(asts[obs[j]]) \subseteq BaseOf(blocks)
